@@ -163,6 +163,15 @@ def run(driver_name, tier, seed, quiet=False):
     agg = {"counts": {}, "outcomes": set(), "samples": [], "violations": [], "items": len(items),
            "extra": {}}
     herrs = []
+    # every temporary file of this run (workers keep scratch directories that a terminated pool cannot clean up)
+    # lives under one directory that is removed when the run ends
+    import tempfile
+    import shutil
+    import atexit
+    rundir = tempfile.mkdtemp(prefix="mxmc-run-")
+    os.environ["TMPDIR"] = rundir
+    tempfile.tempdir = rundir
+    atexit.register(shutil.rmtree, rundir, True)
     ctx = mp.get_context("fork")
     nproc = min(NPROC, max(1, len(items)))
     chunks = max(1, min(8, len(items) // (nproc * 16) or 1))
